@@ -377,3 +377,9 @@ pub fn ij_to_s_internal(input: IJ, invert_j: bool, flip_ij: bool, resolution: us
 
     output
 }
+
+/// Verification hook: the private digit-shift patterns
+#[cfg(feature = "verif")]
+pub fn verif_patterns() -> ([usize; 8], [usize; 8]) {
+    (PATTERN, PATTERN_FLIPPED)
+}
